@@ -507,7 +507,7 @@ class FakeCluster:
         if content_type.startswith('application/merge-patch+json'):
             if not isinstance(payload, dict):
                 return 400, status_payload(400, 'BadRequest', 'merge patch must be an object')
-            new = merge_patch(old, payload)
+            new = merge_patch(copy.deepcopy(old), payload)  # never share sub-dicts with stored snapshots
         elif content_type.startswith('application/json-patch+json'):
             if not isinstance(payload, list):
                 return 400, status_payload(400, 'BadRequest', 'json patch must be a list')
